@@ -188,7 +188,7 @@ func (f *c15File) text(perm func(n int) []int) string {
 	return b.String()
 }
 
-var c15BenchNames = []string{"Encode", "Decode", "Sort/size=1", "Sort/size=10", "Sort/size=100", "Hash/size=1/align=0", "Hash/size=1/align=1", "Hash/size=10/align=0", "Walk", "Fib-8", "Fib-16", "Sort/size=1-8"}
+var c15BenchNames = []string{"Encode", "Decode", "Sort/size=1", "Sort/size=10", "Sort/size=100", "Sort/size=1Ki", "Sort/size=1010", "Sort/size=8Ki", "Sort/size=8100", "Sort/size=1k", "Hash/size=1/align=0", "Hash/size=1/align=1", "Hash/size=10/align=0", "Walk", "Fib-8", "Fib-16", "Sort/size=1-8"}
 var c15Units = []string{"ns/op", "B/op", "allocs/op", "MB/s", "widgets", "ns/frob", "ns/MB", "sec/MB", "MB/ns", "B/ns", "sec/op", "B/s"}
 
 func c15GenFiles(T *sim.Tape) []*c15File {
@@ -207,7 +207,9 @@ func c15GenFiles(T *sim.Tape) []*c15File {
 	var files []*c15File
 	for fi := 0; fi < nf; fi++ {
 		f := &c15File{name: fmt.Sprintf("g%d.txt", fi)}
-		if exact {
+		if exact && (fi == 0 || T.Bool("exact-in-this-file")) {
+			// unit metadata may be declared in some input files only: runs over different file subsets then
+			// disagree about the unit's assumption
 			f.header = append(f.header, "Unit "+units[len(units)-1]+" assume=exact")
 		}
 		if T.Intn(6, "better") == 0 {
@@ -399,6 +401,7 @@ func c15Episode(t *testing.T, r *sim.Run, tier string) {
 	contentKey := "testdata"
 	useTestdata := T.Intn(3, "source") == 0
 	var argsets [][]string
+	var nIn []int // number of input arguments at the end of each argument set
 	nsets := 2 + T.Intn(2, "nargsets")
 	if useTestdata {
 		base := sim.Pick(T, c15TestdataArgs, "tdargs")
@@ -445,7 +448,15 @@ func c15Episode(t *testing.T, r *sim.Run, tier string) {
 				}
 			}
 			a = append(a, "-confidence", sim.Pick(T, c15Conf, "conf"), "-format", []string{"text", "csv"}[T.Intn(2, "format")])
-			argsets = append(argsets, append(a, inputs...))
+			ins := inputs
+			if i > 0 && len(inputs) > 1 && T.Intn(3, "input-subset") == 0 {
+				// a later argument set over a subset of the files (in a drawn rotation): in one process, runs over
+				// different inputs follow each other
+				rot := T.Intn(len(inputs), "subset-rot")
+				ins = append(append([]string(nil), inputs[rot:]...), inputs[:rot]...)[:1+T.Intn(len(inputs)-1, "subset-n")]
+			}
+			argsets = append(argsets, append(a, ins...))
+			nIn = append(nIn, len(ins))
 		}
 	}
 	refs := make([]c15Out, len(argsets))
@@ -497,7 +508,7 @@ func c15Episode(t *testing.T, r *sim.Run, tier string) {
 			}
 			pa := append([]string(nil), a...)
 			li := 0
-			for i := len(pa) - len(inputs); i < len(pa); i++ {
+			for i := len(pa) - nIn[ai]; i < len(pa); i++ {
 				name := pa[i]
 				label := name
 				if j := strings.Index(name, "="); j >= 0 {
@@ -509,7 +520,7 @@ func c15Episode(t *testing.T, r *sim.Run, tier string) {
 			}
 			// the unpermuted run with the same explicit labels is the baseline for this relation
 			ba := append([]string(nil), a...)
-			for i := len(ba) - len(inputs); i < len(ba); i++ {
+			for i := len(ba) - nIn[ai]; i < len(ba); i++ {
 				if !strings.Contains(ba[i], "=") {
 					ba[i] = ba[i] + "=" + ba[i]
 				}
